@@ -342,7 +342,7 @@ theorem clone_regions {h : Heap} {s : Id} {tr dbg : Bool} {h' : Heap} {c : Id} (
   have hne : s.reg ≠ h.length := Nat.ne_of_lt sc.lt
   obtain ⟨so, _, _, _, _, a1, _, _, _, _, _, _, _, a9⟩ := sc.ex
   exact ⟨by rw [sc.reg]; exact hne, hwf.closed.others sc.others hne,
-    a9 hmem.noDisk (hmem.noDir so a1) (fun po m hpo hm => hwf.plain so po m a1 hpo hm)⟩
+    fun i x hx => (a9 hmem.noDisk (hmem.noDir so a1) (fun po m hpo hm => hwf.plain so po m a1 hpo hm) i x hx).1⟩
 
 /-! ## the example used beside the property theorems
 
